@@ -18,6 +18,7 @@ import YashModel.Alias.Blank
 import YashModel.Alias.Origins
 import YashModel.Alias.Builtins
 import YashModel.Alias.TableLemmas
+import YashModel.Alias.Sites
 namespace YashModel.Alias
 
 /-! ## ★ subst_terminates -/
@@ -914,15 +915,6 @@ theorem line_origins_eq_spec_partial (T : Table) (line : List Char) (f : Nat)
     (c := { l := { T := T, h := { rest := line } } }) ⟨rfl, rfl, sim_init line⟩ (corr_init line) rfl hA
   exact origins_final hs.2.2 hco hl
 
-/-- executable lock-step check of `LAgree` (a kernel-checkable certificate for one table and script) -/
-def lagreeB : Nat → LState → HLState → Bool
-  | 0, _, _ => true
-  | f + 1, l, g =>
-    decide (mcand l.T l.m = hcand g.T g.h) &&
-      match lstep l, hlstep g with
-      | some l', some g' => lagreeB f l' g'
-      | _, _ => true
-
 theorem lagree_of_lagreeB (f : Nat) {l : LState} {g : HLState} (hb : lagreeB f l g = true) : LAgree f l g := by
   induction f generalizing l g with
   | zero => trivial
@@ -944,6 +936,20 @@ example : lagreeB 200
        h := ({ rest := "a b\na".toList } : HState) } : HLState) = true := by decide +kernel
 
 
+
+/-- What the driver evaluates on EVERY generated case (`Main.lean` prints `=LAGREE-FAILED` in the Spec column if the
+    certificate is false): when `lagreeB` holds, text, tokens, pending here-documents, final table and the origin of
+    every character agree between the model's line machine and the by-hand line machine — by theorem, for that table
+    and script, with the table changing between command lines. -/
+theorem line_model_eq_spec_checked (T : Table) (line : List Char) (f : Nat)
+    (hb : lagreeB f { T := T, m := init line } { T := T, h := { rest := line } } = true) :
+    let l := (lrun f { T := T, m := init line }).1
+    let g := hlrun f { T := T, h := { rest := line } }
+    (l.m.text = g.h.out.reverse ++ g.h.rest ∧ l.m.toks = g.h.toks ∧ l.m.hd = g.h.hd ∧
+      l.finalTable = g.finalTable) ∧
+    l.m.origins = (hlrunC f { l := { T := T, h := { rest := line } } }).origins :=
+  ⟨line_model_eq_spec_partial T line f (lagree_of_lagreeB f hb),
+   line_origins_eq_spec_partial T line f (lagree_of_lagreeB f hb)⟩
 
 /-- the driver's Spec column runs `hlrunC`; its by-hand state is that of `hlrun` (the log only observes), so
     `line_model_eq_spec_partial` and `spec_only_eligible` speak about what the driver prints -/
@@ -1161,5 +1167,229 @@ theorem builtin_tables_are_the_code :
     YashModel.Generated.AliasTables.aliasSplitChar = '=' ∧
     YashModel.Generated.AliasTables.aliasDefinesGlobal = false ∧
     YashModel.Generated.AliasTables.endsWithBlankLooksAt = "last" := builtins_generated
+
+/-! ## wave 3: "exactly the eligible words" — the converse of `only_eligible`; redirection operands; call sites -/
+
+/-- ★ `eligible_word_is_replaced` (converse of `only_eligible`): a literal word that names an alias, is not on
+    its own origin chain, is taken with substitution enabled (`sub = some cmd`: `take_token_manual(cmd)` /
+    `take_token_auto`) and stands in command position (`cmd`), or names a GLOBAL alias, or follows a blank-ending
+    replacement, IS replaced — in every grammar position, for every table; the result is the splice of the value
+    and the parser stays in the same grammar position (`onSub`).  With `only_eligible`: a step replaces the word
+    IF AND ONLY IF it is eligible. -/
+theorem eligible_word_is_replaced (T : Table) (s : MState) (c0 : SChar) (tl : List SChar) (name : String)
+    (asg cmd : Bool) (a : Alias)
+    (hdrop : s.rest.drop (skipLen s.rest) = c0 :: tl)
+    (hkind : (lexTok (c0 :: tl)).kind = .word (some name) asg)
+    (hsub : (trans s.st (.word (some name) asg)).sub = some cmd)
+    (hnot : c0.isAliasFor name = false)
+    (hlook : T.lookup name = some a)
+    (hwhy : cmd = true ∨ a.global = true ∨
+      afterBlank ((markLc (s.rest.take (skipLen s.rest))).reverse ++ s.pre) (some c0) = true) :
+    ∃ s', step T s = some s' ∧
+      s'.rest = spliceChars a c0 ++ tl.drop ((lexTok (c0 :: tl)).len - 1) ∧
+      s'.pre = (markLc (s.rest.take (skipLen s.rest))).reverse ++ s.pre ∧
+      s'.st = (trans s.st (.word (some name) asg)).onSub ∧ s'.subs = s.subs + 1 := by
+  have hel : eligible T ((markLc (s.rest.take (skipLen s.rest))).reverse ++ s.pre) c0
+      (.word (some name) asg) (some cmd) = some a := by
+    rcases hwhy with h | h | h <;> simp [eligible, hnot, hlook, h]
+  refine ⟨{ pre := (markLc (s.rest.take (skipLen s.rest))).reverse ++ s.pre,
+            rest := spliceChars a c0 ++ tl.drop ((lexTok (c0 :: tl)).len - 1),
+            st := (trans s.st (.word (some name) asg)).onSub,
+            subs := s.subs + 1, toks := s.toks, hd := s.hd }, ?_, rfl, rfl, rfl, rfl⟩
+  unfold step
+  simp only [hdrop, hkind, hsub, hel]
+
+/-- states in which the parser accepts a redirection (`Parser::redirection` is tried first by `simple_command`,
+    and after a compound command) -/
+def acceptsRedir (st : PState) : Bool :=
+  st == .cmd0 || st == .pre || st == .one || st == .args || st == .afterComp
+
+/-- A redirection or here-document operator — typed or out of a replacement, the automaton sees only the token —
+    puts the parser in operand position, from every state that accepts a redirection; there, EVERY word (reserved
+    words included: `take_token_auto(&[])`) is checked with `is_command_name = false`, a replacement leaves the
+    parser in operand position (the operand is what comes out in the end), and the operand returns to where the
+    redirection started. -/
+theorem redirection_operand_position (st : PState) (h : acceptsRedir st = true) (s : String)
+    (lit : Option String) (asg : Bool) :
+    (isRedirOp s = true → ∃ r, trans st (.op s) = { onTake := .redir r } ∧
+        (trans (.redir r) (.word lit asg)) = { sub := some false, onSub := .redir r, onTake := retState r }) ∧
+    (isRedirOp s = false → isHereOp s = true → ∃ r, trans st (.op s) = { onTake := .redirH r (s == "<<-") } ∧
+        (trans (.redirH r (s == "<<-")) (.word lit asg)) =
+          { sub := some false, onSub := .redirH r (s == "<<-"), onTake := retState r }) := by
+  cases st <;> simp [acceptsRedir] at h <;>
+    exact ⟨fun h1 => by simp [trans, transCore, h1], fun h1 h2 => by simp [trans, transCore, h1, h2]⟩
+
+/-- ★ `redirection_operand_replaced`: the operand of a redirection (also the delimiter of a here-document) that
+    names a GLOBAL alias or follows a blank-ending replacement (e.g. `a='b ' b='>' c=out`, line `a c`) is replaced
+    by the value — the command redirects to the value, not to a file named after the alias — and the parser is
+    still in operand position for what comes out. -/
+theorem redirection_operand_replaced (T : Table) (s : MState) (c0 : SChar) (tl : List SChar) (name : String)
+    (asg : Bool) (a : Alias)
+    (hst : (∃ r, s.st = .redir r) ∨ (∃ r d, s.st = .redirH r d))
+    (hdrop : s.rest.drop (skipLen s.rest) = c0 :: tl)
+    (hkind : (lexTok (c0 :: tl)).kind = .word (some name) asg)
+    (hnot : c0.isAliasFor name = false)
+    (hlook : T.lookup name = some a)
+    (hwhy : a.global = true ∨
+      afterBlank ((markLc (s.rest.take (skipLen s.rest))).reverse ++ s.pre) (some c0) = true) :
+    ∃ s', step T s = some s' ∧
+      s'.rest = spliceChars a c0 ++ tl.drop ((lexTok (c0 :: tl)).len - 1) ∧ s'.st = s.st := by
+  have hsub : (trans s.st (.word (some name) asg)).sub = some false ∧
+      (trans s.st (.word (some name) asg)).onSub = s.st := by
+    rcases hst with ⟨r, h⟩ | ⟨r, d, h⟩ <;> rw [h] <;> simp [trans, transCore]
+  obtain ⟨s', h1, h2, _, h4, _⟩ :=
+    eligible_word_is_replaced T s c0 tl name asg false a hdrop hkind hsub.1 hnot hlook (Or.inr hwhy)
+  exact ⟨s', h1, h2, h4.trans hsub.2⟩
+
+/-- … and a NON-global alias name that does not follow a blank-ending replacement is left alone there. -/
+theorem redirection_operand_unchanged (T : Table) (s s' : MState) (h : step T s = some s')
+    (hst : (∃ r, s.st = .redir r) ∨ (∃ r d, s.st = .redirH r d)) :
+    s'.text = s.text ∨
+    ∃ (c0 : SChar) (tl : List SChar) (a : Alias) (name : String) (asg : Bool),
+      s.rest.drop (skipLen s.rest) = c0 :: tl ∧ (lexTok (c0 :: tl)).kind = .word (some name) asg ∧
+      T.lookup name = some a ∧
+      (a.global = true ∨
+        afterBlank ((markLc (s.rest.take (skipLen s.rest))).reverse ++ s.pre) (some c0) = true) := by
+  rcases only_eligible T s s' h with h1 | ⟨c0, tl, a, cmd, name, asg, hdrop, hkind, hsub, _, hlook, hwhy, _⟩
+  · exact Or.inl h1
+  · right
+    refine ⟨c0, tl, a, name, asg, hdrop, hkind, hlook, ?_⟩
+    have hcmd : cmd = false := by
+      rw [hkind] at hsub
+      rcases hst with ⟨r, h2⟩ | ⟨r, d, h2⟩ <;> rw [h2] at hsub <;> simp [trans, transCore] at hsub <;> exact hsub
+    rcases hwhy with h3 | h3 | h3
+    · rw [hcmd] at h3; cases h3
+    · exact Or.inl h3
+    · exact Or.inr h3
+
+/-- non-vacuity (the inputs of seeded change 7): the operator comes out of replacement text and the operand is
+    eligible through the chained blank rule; a value ending in `> `; a global alias after `<` / `>` and as a
+    here-document delimiter; an ordinary alias name as operand is left alone. -/
+example : substText [⟨"a", "b ".toList, false⟩, ⟨"b", ">".toList, false⟩, ⟨"c", "out".toList, false⟩] "a c".toList
+    = ">  out".toList := by decide +kernel
+example : substText [⟨"r", "x > ".toList, false⟩, ⟨"c", "out".toList, false⟩] "r c; x > c".toList
+    = "x >  out; x > c".toList := by decide +kernel
+example : substText [⟨"g", "f".toList, true⟩] "x <g >g 2>>g; { y; } >g".toList
+    = "x <f >f 2>>f; { y; } >f".toList := by decide +kernel
+example : substText [⟨"g", "E".toList, true⟩] "cat <<g\nx\nE\n".toList = "cat <<E\nx\nE\n".toList := by decide +kernel
+/-- hypotheses of `redirection_operand_replaced` on a reachable state (after `x >` with a global alias `g`) -/
+example : ∃ s', step [⟨"g", "f".toList, true⟩] { rest := plain " g".toList, pre := plain ">x".toList, st := .redir 1 } = some s'
+    ∧ s'.text = "x> f".toList ∧ s'.st = .redir 1 := by decide +kernel
+
+/-- ★ `call_sites_are_the_code`: the model's list of call sites (which automaton states stand for which
+    `take_token_auto(&[…])` / `take_token_manual(flag)` call of the parser) holds exactly the calls the extractor
+    finds in yash-syntax/src/parser/*.rs on this run — same number, same reserved-word lists, same flags — and
+    `take_token_auto` passes `is_command_name = false`.  A call site turned into `take_token_raw`, a changed flag or
+    reserved-word list, or a new call site breaks this proof. -/
+theorem call_sites_are_the_code :
+    (sites.map fun s => s.take.key).Perm (YashModel.Generated.AliasTables.substTakes.map fun x => (x.2.2.1, x.2.2.2)) ∧
+    YashModel.Generated.AliasTables.autoCommandFlag = false :=
+  ⟨List.isPerm_iff.mp sites_generated, autoFlag_generated⟩
+
+/-- ★ `trans_follows_call_sites`: for every state and every word, the automaton's decision "substitute or not,
+    with which `is_command_name`" is the one the covering call site makes (`Take.sub`: `auto` returns its reserved
+    words raw and otherwise checks with `false`, `manual(f)` checks with `f`, `words.is_empty()` = no command word
+    yet); reserved words the caller peeks at first are taken raw; in states no call site covers every word is
+    taken raw; and no state is covered twice. -/
+theorem trans_follows_call_sites (st : PState) (lit : Option String) (asg : Bool) :
+    (∀ s ∈ sites, s.covers st = true → s.filtered st lit = false →
+      (trans st (.word lit asg)).sub = s.take.sub st lit) ∧
+    (∀ s ∈ sites, s.covers st = true → s.filtered st lit = true → (trans st (.word lit asg)).sub = none) ∧
+    ((∀ s ∈ sites, s.covers st = false) → (trans st (.word lit asg)).sub = none) ∧
+    (sites.filter fun s => s.covers st).length ≤ 1 :=
+  ⟨trans_sub_of_site st lit asg, trans_sub_filtered st lit asg, trans_sub_uncovered st lit asg, sites_disjoint st⟩
+
+/-- non-vacuity: the redirection operand site, the command-name flag of `simple_command`, a filtered reserved word -/
+example : (sites.filter fun s => s.covers (.redir 1)).map (·.fn) = ["redirection_operand"] := by decide +kernel
+example : (trans (.redir 1) (.word (some "x") false)).sub = some false ∧
+    (trans .pre (.word (some "x") false)).sub = some true ∧ (trans .args (.word (some "x") false)).sub = some false ∧
+    (trans .cmd0 (.word (some "if") false)).sub = none ∧ (trans .afterComp (.word (some "x") false)).sub = none := by
+  decide +kernel
+
+/-- ★ `substitution_replaces_whole_word`: a substituting step is the textual replacement `A ++ w ++ B ↦ A ++ value ++ B`
+    of ONE WHOLE WORD — stated without the model's index arithmetic (`tok.len - 1`, `drop`): `A` is everything
+    consumed so far plus the blanks/comment skipped, `w` is non-empty, starts with a non-delimiter, contains no blank,
+    is exactly the token the lexer finds at `w ++ B` (a literal word naming the alias), and `B` is empty or starts
+    with a token delimiter.  An off-by-one in the splice (a character of the word kept, or a character after it
+    eaten) contradicts this statement. -/
+theorem substitution_replaces_whole_word (T : Table) (s s' : MState) (h : step T s = some s')
+    (hsub : s'.subs ≠ s.subs) :
+    ∃ (A w B : List Char) (a : Alias) (name : String) (asg : Bool),
+      s.text = A ++ w ++ B ∧ s'.text = A ++ a.value ++ B ∧
+      A = chars s.pre.reverse ++ (chars s.rest).take (skipLenC (chars s.rest)) ∧
+      w ≠ [] ∧ (∀ c, w.head? = some c → isDelim c = false) ∧ (∀ c ∈ w, isBlank c = false) ∧
+      (∀ d, B.head? = some d → isDelim d = true) ∧
+      (lexTokC (w ++ B)).kind = .word (some name) asg ∧ w = (w ++ B).take (lexTokC (w ++ B)).len ∧
+      T.lookup name = some a := by
+  cases step_rel h with
+  | take c0 tl hdrop hel hpre hrest =>
+    exfalso
+    apply hsub
+    unfold step at h
+    simp only [hdrop, hel] at h
+    cases h
+    rfl
+  | subst c0 tl a cmd name asg hdrop hkind hsub' hnot hlook hwhy hpre hrest =>
+    obtain ⟨hnd, hdel, hnb⟩ := model_token_facts hdrop hkind
+    have hlen : 1 ≤ (lexTok (c0 :: tl)).len := by
+      cases hl : (lexTok (c0 :: tl)).len with
+      | zero =>
+        exfalso
+        have hd : (chars s.rest).drop (skipLenC (chars s.rest)) = c0.c :: chars tl := by
+          have := congrArg chars hdrop
+          rw [chars_drop] at this
+          exact this
+        have := (word_token_facts (l := chars s.rest) hd hkind).2.1 c0.c (by
+          have : (lexTokC (c0.c :: chars tl)).len = 0 := hl
+          rw [this]; rfl)
+        rw [hnd] at this; cases this
+      | succ n => omega
+    obtain ⟨n, hn⟩ : ∃ n, (lexTok (c0 :: tl)).len = n + 1 := ⟨_, (Nat.sub_add_cancel hlen).symm⟩
+    have hn1 : (lexTok (c0 :: tl)).len - 1 = n := by omega
+    rw [hn1] at hdel hnb hrest
+    have hsplit : s.rest = s.rest.take (skipLen s.rest) ++ (c0 :: tl.take n ++ tl.drop n) := by
+      rw [List.cons_append, List.take_append_drop, ← hdrop, List.take_append_drop]
+    have hwB : chars (c0 :: tl.take n) ++ chars (tl.drop n) = chars (c0 :: tl) := by
+      rw [← chars_append, List.cons_append, List.take_append_drop]
+    refine ⟨chars s.pre.reverse ++ (chars s.rest).take (skipLenC (chars s.rest)), chars (c0 :: tl.take n),
+      chars (tl.drop n), a, name, asg, ?_, ?_, rfl, ?_, ?_, ?_, ?_, ?_, ?_, hlook⟩
+    · unfold MState.text
+      conv => lhs; rw [hsplit]
+      simp only [chars, List.map_append, List.map_take, List.append_assoc, List.map_reverse, List.map_cons,
+        List.cons_append]
+      rfl
+    · unfold MState.text
+      rw [hpre, hrest]
+      simp only [chars, List.map_append, List.map_take, List.append_assoc, List.map_reverse, List.reverse_append,
+        List.reverse_reverse, markLc_chars, spliceChars, List.map_map]
+      congr 2
+      have : ((fun x : SChar => x.c) ∘ fun ch => ({ c := ch, chain := a.name :: c0.chain, eb := endsBlank a.value } : SChar))
+          = id := rfl
+      rw [this, List.map_id]
+    · simp [chars]
+    · intro c hc
+      simp only [chars, List.map_cons, List.head?_cons, Option.some.injEq] at hc
+      rw [← hc]; exact hnd
+    · intro c hc
+      obtain ⟨x, hx, rfl⟩ := List.mem_map.mp hc
+      exact hnb x hx
+    · intro d hd
+      rw [chars, List.head?_map] at hd
+      cases hh : (tl.drop n).head? with
+      | none => rw [hh] at hd; cases hd
+      | some x =>
+        rw [hh] at hd
+        simp only [Option.map_some, Option.some.injEq] at hd
+        rw [← hd]; exact hdel x hh
+    · rw [hwB]; exact hkind
+    · rw [hwB]
+      have : (lexTokC (chars (c0 :: tl))).len = n + 1 := hn
+      rw [this]
+      simp [chars, List.map_take]
+
+/-- non-vacuity: `x&a` with `a='& y'` — the word `a` (and only it) is replaced; it stays a token boundary on its left -/
+example : substText [⟨"a", "& y".toList, true⟩] "x&a b".toList = "x&& y b".toList := by decide +kernel
+example : ∃ s', step [⟨"a", "& y".toList, true⟩] { rest := plain "a b".toList, pre := plain "&x".toList, st := .cmd0 } = some s' ∧
+    s'.subs ≠ 0 ∧ s'.text = "x&& y b".toList := by decide +kernel
 
 end YashModel.Alias
